@@ -10,10 +10,20 @@ import NV.C18.Spec
 import NV.C18.Lemmas
 import NV.C18.LemmasTrace
 import NV.C18.LemmasFile
+import NV.C18.LemmasFileN
 
 namespace NV.C18
 
 open NV.Gen.C18
+
+/-! ## widths (regenerated from the source on every run) -/
+
+/-- the widths the model relies on, as the C declarations have them: the run length byte of `line_info` holds
+`runMax`; the stored absolute line (`short`), the `file_info` elements, `parse_node_t.line` and `program_size` are
+all `lineMod` wide.  A change of any of these declarations breaks this obligation. -/
+theorem widths_agree :
+    runMax + 1 = 2 ^ lineInfoLenBits ∧ 2 ^ fileInfoBits = lineMod ∧ 2 ^ nodeLineBits = lineMod ∧
+    2 ^ progSizeBits = lineMod ∧ aProgram ≠ aInitializer := by decide
 
 /-! ## line_roundtrip -/
 
@@ -123,8 +133,9 @@ example : runsOf 600 41 = [⟨255, 41⟩, ⟨255, 41⟩, ⟨90, 41⟩] ∧
 
 /-! ## file_roundtrip -/
 
-/-- **file_roundtrip** (`file_roundtrip_partial`: proved under the side conditions `Fresh` and the 16 bit bound, see
-`NV.C18.file_roundtrip_Full_false` for the witness without `Fresh`).
+/-- **file_roundtrip_ids** — the id-level core (`file_roundtrip` below discharges `Fresh` for the ids the repaired
+`add_program_file` allocates; `NV.C18.file_roundtrip_Full_false` shows that it fails when an id is reused, which is
+what the code did before the fix).
 Take ANY include layout, given as the lexer's event sequence `p ++ q` over the main file `main`: ordinary lines,
 `#include` directives at any nesting (each opening a file not used before in this compilation unit) and ends of
 included files (resumption of the parent).  Stop after ANY prefix `p`: the lexer stands at line `curLine` of file
@@ -132,7 +143,7 @@ included files (resumption of the parent).  Stop after ANY prefix `p`: the lexer
 line with `translate_absolute_line` against the `file_info` table as it is at the END of the compilation (all
 `save_file_info` calls of `handle_include`, of the include pop and of `i_generate_final_program`) returns exactly
 `(fileId, curLine)` — provided the compilation unit has fewer than 2^16 absolute lines. -/
-theorem file_roundtrip (main : Nat) (hmain : main < lineMod) (p q : List LexEv)
+theorem file_roundtrip_ids (main : Nat) (hmain : main < lineMod) (p q : List LexEv)
     (hfresh : Fresh { fileId := main } (p ++ q))
     (hfit : (lexRun { fileId := main } (p ++ q)).abs < (lineMod : Int)) :
     translateAbs (lexRun { fileId := main } p).abs (lexFinish (lexRun { fileId := main } (p ++ q))).fi
@@ -152,7 +163,56 @@ theorem file_roundtrip_partial (main : Nat) (hmain : main < lineMod) (p q : List
     (hfit : (lexRun { fileId := main } (p ++ q)).abs < (lineMod : Int)) :
     translateAbs (lexRun { fileId := main } p).abs (lexFinish (lexRun { fileId := main } (p ++ q))).fi
       = some ((lexRun { fileId := main } p).fileId, (lexRun { fileId := main } p).curLine) :=
-  file_roundtrip main hmain p q hfresh hfit
+  file_roundtrip_ids main hmain p q hfresh hfit
+
+/-- **file_roundtrip** (full: no condition on the include layout).  Take ANY sequence of lexer events over the main
+file `main`: ordinary lines, `#include` directives of ANY file at ANY nesting — the same header any number of times,
+a header including itself or its includer — ends of included files, and arbitrary other insertions into the program
+string table.  File ids are chosen as the repaired `add_program_file`/`program_file_id` does (the id of the string
+table entry, or an entry of its own when a `file_info` segment already uses that id).  Stop after ANY prefix `p`: the
+lexer reads line `curLine` of the file named `curName`.  Decoding the absolute line of that position against the
+FINAL `file_info` table returns a file id and a line such that the line is `curLine` and the final string table
+maps the id to `curName` — i.e. exactly the source position.  Size conditions only: fewer than 2^16 absolute lines
+and fewer than 2^16 program strings. -/
+theorem file_roundtrip (main : Nat) (p q : List LexEvN)
+    (hfit : (lexRunN (initN main) (p ++ q)).lex.abs < (lineMod : Int))
+    (htbl : (lexRunN (initN main) (p ++ q)).tbl.length < lineMod) :
+    translateAbs (lexRunN (initN main) p).lex.abs (lexFinish (lexRunN (initN main) (p ++ q)).lex).fi
+      = some ((lexRunN (initN main) p).lex.fileId, (lexRunN (initN main) p).lex.curLine) ∧
+    1 ≤ (lexRunN (initN main) p).lex.fileId ∧
+    (lexRunN (initN main) (p ++ q)).tbl[(lexRunN (initN main) p).lex.fileId - 1]? = some (lexRunN (initN main) p).curName := by
+  have h1 : (1 : Nat) < lineMod := by decide
+  have hfresh := fresh_idsOf (p ++ q) (initN main) (inv_init 1 h1) (tinv_init main) hfit htbl
+  rw [idsOf_append] at hfresh
+  have hids := file_roundtrip_ids 1 h1 (idsOf (initN main) p) (idsOf (lexRunN (initN main) p) q) hfresh
+    (by
+      have h := run_lex (p ++ q) (initN main)
+      rw [idsOf_append] at h
+      have h' : lexRun { fileId := 1 } (idsOf (initN main) p ++ idsOf (lexRunN (initN main) p) q)
+          = (lexRunN (initN main) (p ++ q)).lex := h.symm
+      rw [h']; exact hfit)
+  have hlexp : (lexRunN (initN main) p).lex = lexRun { fileId := 1 } (idsOf (initN main) p) := run_lex p (initN main)
+  have hlexpq : (lexRunN (initN main) (p ++ q)).lex
+      = lexRun { fileId := 1 } (idsOf (initN main) p ++ idsOf (lexRunN (initN main) p) q) := by
+    rw [← idsOf_append]; exact run_lex (p ++ q) (initN main)
+  rw [hlexp, hlexpq]
+  refine ⟨hids, ?_⟩
+  have hn := ninv_run p (initN main) (ninv_init main)
+  have hsplit : lexRunN (initN main) (p ++ q) = lexRunN (lexRunN (initN main) p) q := by
+    simp [lexRunN, List.foldl_append]
+  obtain ⟨X, hX⟩ := tbl_prefix_run q (lexRunN (initN main) p)
+  rw [← hlexp, hsplit, hX]
+  exact ⟨hn.hcur.1, getElem?_append_some _ _ _ _ hn.hcur.2⟩
+
+/-- non-vacuity: header 7 included three times from the main file 5 (twice directly, once through header 8, which
+is in turn included by … header 7's second copy): stop inside the third copy -/
+example :
+    let p : List LexEvN := [.nl, .incl 7, .nl, .eof, .store 99, .incl 7, .incl 8, .nl, .incl 7, .nl, .nl]
+    let q : List LexEvN := [.eof, .nl, .eof, .eof, .nl]
+    (lexRunN (initN 5) (p ++ q)).lex.abs < (lineMod : Int) ∧ (lexRunN (initN 5) (p ++ q)).tbl = [5, 7, 99, 7, 8, 7] ∧
+    (lexRunN (initN 5) p).curName = 7 ∧ (lexRunN (initN 5) p).lex.curLine = 3 ∧
+    translateAbs (lexRunN (initN 5) p).lex.abs (lexFinish (lexRunN (initN 5) (p ++ q)).lex).fi = some (6, 3) := by
+  decide
 
 /-- the full statement (no freshness condition): false for the code as it is, see NV/C18/Witness.lean -/
 def file_roundtrip_Full : Prop :=
